@@ -192,4 +192,15 @@ def wfMsg (req : Option Json) (m : Json) : Bool :=
         | _, _ => false))
   | _ => false
 
+/-! ## requests -/
+
+def envelopeKeys : List Text := [t!"jsonrpc", t!"id", t!"method", t!"params"]
+
+/-- A well-formed JSON-RPC 2.0 request envelope: an object whose members are `jsonrpc` = "2.0", a string or integer `id`, a
+    string `method` and optionally `params` — each at most once, and nothing else. -/
+def wfEnvelope : Json → Bool
+  | .obj o => keysNodup o && onlyKeys o envelopeKeys && reqIs o t!"jsonrpc" (isStrEq t!"2.0") && reqIs o t!"id" wfId &&
+      reqIs o t!"method" isStr
+  | _ => false
+
 end Mcp.RpcSpec
